@@ -406,6 +406,37 @@ func c07(c *Ctx) {
 				return
 			}
 		}
+		// likewise a journal in which an asset is DEFINED (AssetCodeLog, written by CreateAssetTx only) after the same asset code was
+		// already defined or touched earlier in the block: the code of an asset is the hash of its creating tx, a tx is in a block at
+		// most once (verifyTxs), and nothing can touch an asset before its definition. The journal API accepts such a sequence
+		// (the revert part exercises it), MergeChangeLogs is not order-faithful for it (the merged TotalSupply log lands in front of
+		// the second definition: merge_redo_eq_partial's guard), but it can never be in a block's published logs.
+		{
+			type ak struct {
+				a common.Address
+				k common.Hash
+			}
+			touched := map[ak]bool{}
+			for _, l := range w.am.GetChangeLogs() {
+				var code common.Hash
+				switch l.LogType {
+				case account.AssetCodeLog, account.AssetCodeTotalSupplyLog:
+					code, _ = l.Extra.(common.Hash)
+				case account.AssetCodeStateLog:
+					if ex, ok := l.Extra.(*account.ProfileChangeLogExtra); ok {
+						code = ex.UUID
+					}
+				default:
+					continue
+				}
+				key := ak{l.Address, code}
+				if l.LogType == account.AssetCodeLog && touched[key] {
+					c.Count("redo-at-reset:skipped(asset-defined-after-it-was-touched-in-the-same-block)")
+					return
+				}
+				touched[key] = true
+			}
+		}
 		_, executed := w.observe()
 		var logs types.ChangeLogSlice
 		if Safe(func() string { w.am.MergeChangeLogs(); logs = w.am.GetChangeLogs(); return "ok" }) != "ok" {
